@@ -164,9 +164,7 @@ func TestVerifC10(t *testing.T) {
 	shippedLines := strings.Split(string(shipped), "\n")
 	n := r.N(6000, 400000)
 	accepted, rejected := 0, 0
-	for i := 0; i < n; i++ {
-		var content []byte
-		kind := ""
+	gen := func() (kind string, content []byte, env map[string]string, encKind string) {
 		switch k := rng.IntN(20); {
 		case k < 9:
 			kind = "generated-object"
@@ -218,9 +216,8 @@ func TestVerifC10(t *testing.T) {
 			o := c10Object(rng, verifGlobalFields, 6)
 			content = []byte(o[:rng.IntN(len(o)+1)])
 		}
-		env := map[string]string{}
+		env = map[string]string{}
 		// encryption
-		encKind := ""
 		if rng.IntN(5) == 0 {
 			keyName := pick(rng, []string{"MTX_CONFKEY", "MTX_CONFKEY", "RTSP_CONFKEY"})
 			key := pick(rng, []string{"", "k", "0123456789abcdef0123456789abcdef", strings.Repeat("x", 100)})
@@ -271,6 +268,42 @@ func TestVerifC10(t *testing.T) {
 				v = "" // the empty value (the empty list for list parameters)
 			}
 			env[k] = v
+		}
+		return
+	}
+	// degenerate sweep: every parameter (global, pathDefaults, path entry; file and environment) x degenerate values
+	type preCase struct {
+		kind    string
+		content []byte
+		env     map[string]string
+	}
+	var pre []preCase
+	degenerate := c10Hostile
+	if !r.Thorough() {
+		degenerate = []string{`""`, `null`, `0`, `-1`, `[]`, `{}`, `"~"`, `true`}
+	}
+	for _, v := range degenerate {
+		for _, f := range verifGlobalFields {
+			pre = append(pre, preCase{"sweep-global", []byte(fmt.Sprintf(`{%s: %s}`, verifJSONString(f.JSON), v)), nil})
+			pre = append(pre, preCase{"sweep-global-env", []byte(`{}`), map[string]string{"MTX_" + strings.ToUpper(f.JSON): strings.Trim(v, `"`)}})
+		}
+		for _, f := range verifPathFields {
+			pre = append(pre, preCase{"sweep-pathdefaults", []byte(fmt.Sprintf(`{"pathDefaults": {%s: %s}}`, verifJSONString(f.JSON), v)), nil})
+			pre = append(pre, preCase{"sweep-path", []byte(fmt.Sprintf(`{"paths": {"cam": {%s: %s}}}`, verifJSONString(f.JSON), v)), nil})
+			pre = append(pre, preCase{"sweep-path-env", []byte(`{"paths": {"cam": {}}}`), map[string]string{"MTX_PATHS_CAM_" + strings.ToUpper(f.JSON): strings.Trim(v, `"`)}})
+		}
+	}
+	for i := 0; i < n+len(pre); i++ {
+		var kind, encKind string
+		var content []byte
+		var env map[string]string
+		if i < len(pre) {
+			kind, content, env = pre[i].kind, pre[i].content, pre[i].env
+			if env == nil {
+				env = map[string]string{}
+			}
+		} else {
+			kind, content, env, encKind = gen()
 		}
 		os.WriteFile(fp, content, 0o644) //nolint:errcheck
 		r.SetCurrent(map[string]any{"kind": kind, "encryption": encKind, "env": env, "content_b64": base64.StdEncoding.EncodeToString(content[:min(len(content), 200000)])})
